@@ -81,6 +81,28 @@ theorem C10_capture_exact_mixed (S : Schema) (id : Nat) (hc : (S.msg id).capture
     ∃ slots', v = .msg slots' (u0 ++ ((unknownOf S id rs).map fun r => Wire.tag r.num r.wire ++ r.raw).flatten) :=
   capture_exact_mixed S id hc n b rs hr slots u0 v h
 
+/-- MACHINE LEVEL of the same: whenever the real decoder accepts an input into a fresh capturing
+message, the `XXX_unrecognized` bytes it leaves are exactly the unknown records of the input, in
+input order, each as minimal tag ++ original value bytes -/
+theorem C10_unmarshal_captures_exactly (S : Schema) (hS : S.supported = true) (id : Nat)
+    (hc : (S.msg id).capture = true) (n : Nat) (b : Bytes) (rs : List Record) (hr : records n b = some rs) :
+    ∃ d m, Gen2.unmarshal S id b (Gen2.zeroMsg S id) = .ok (d, m) ∧
+      (d.err = none → ∃ slots', m = .msg slots'
+        ((unknownOf S id rs).map fun r => Wire.tag r.num r.wire ++ r.raw).flatten) := by
+  obtain ⟨d, m, hrun, _, hval⟩ := Gen2.unmarshal_new_refines_spec S hS id b
+  refine ⟨d, m, hrun, fun he => ?_⟩
+  obtain ⟨slots, u, hz, _⟩ := Perm.wide_zeroMsg S id
+  have hu : u = [] := by
+    have : Gen2.zeroMsg S id = .msg ((S.msg id).fields.map fun f => Gen2.zeroSlot S (Gen2.zeroMsgN S S.length) f) [] := by
+      unfold Gen2.zeroMsg; rw [Gen2.zeroMsgN]
+    rw [this] at hz
+    exact (Val.msg.inj hz).2.symm
+  subst hu
+  have h := hval he
+  rw [hz] at h
+  have := capture_exact_mixed S id hc n b rs hr slots [] m h
+  simpa using this
+
 /-- … and those bytes tokenize into exactly those records again: the unknown fields are forwarded intact -/
 theorem C10_captured_bytes_records (S : Schema) (id : Nat) (n : Nat) (b : Bytes) (rs : List Record)
     (hr : records n b = some rs) :
